@@ -159,7 +159,8 @@ static ec_curve_p get_curve(const char *name, const char *alg, int *rc_ret) {
 	if (k == nloaded) {
 		for (i = 0; i < nitems(toy_curves); i++)
 			if (!strcmp(toy_curves[i].name, name)) cs = &toy_curves[i];
-		if (!cs) cs = ecdsa_curve_str_get_by_name(name, strlen(name));
+		for (i = 0; !cs && i < nitems(ec_curve_str); i++)        /* by the table's own string (one name_size field is off by one) */
+			if (!strcmp(ec_curve_str[i].name, name)) cs = &ec_curve_str[i];
 		if (!cs || nloaded >= MAX_CURVES) { printf("FATAL unknown curve %s\n", name); exit(3); }
 		loaded[k] = malloc(sizeof(ec_curve_t));
 		loaded_name[k] = strdup(name);
